@@ -20,6 +20,8 @@ Definition id_val (i : id) : val :=
   | IInt z => VInt z
   | IStr s => VStr s
   | IUuid n => VTuple [VStr [117; 117; 105; 100]%N; VInt (Z.of_N n)]
+  | INull => VNone                                                      (* never a token *)
+  | IOdd n => VTuple [VStr [111; 100; 100]%N; VInt (Z.of_N n)]          (* never a token *)
   end.
 
 Definition fut_val : val := VObj "Future" [].      (* a cancellation future; which one is not visible here *)
@@ -66,7 +68,7 @@ Notation q_end := ["Progress"; "end"] (only parsing).
 Lemma id_val_eq a b : py_eq (id_val a) (id_val b) = id_eqb a b.
 Proof.
   destruct a, b; cbn [id_val py_eq id_eqb]; try reflexivity.
-  cbn. rewrite andb_true_r. destruct (N.eqb_spec n n0); lia.
+  all: cbn; rewrite andb_true_r; destruct (N.eqb_spec n n0); lia.
 Qed.
 
 Lemma dict_get_tokens tok l :
